@@ -62,10 +62,8 @@ def flag_test(bits):
     return m
 
 
-def check(ctx):
-    P = ctx.prog
-    ms = None
-    # ---------------- a: edges of Peripheral.state ------------------------------------------------
+def extract_state_edges(ctx, P):
+    """abstract edges of `Peripheral.state`: one record per (store, path class): pre/post variant sets + the path-class facts"""
     uses = mut_uses_of_field(P, CR, "state", "PeripheralState")
     edges = []
     per_fn = {}
@@ -97,6 +95,14 @@ def check(ctx):
                             post = set(vs[1])
                 edges.append(dict(fn=f, loc=loc, pre=pre, post=post, facts=fs, n=n))
             n += 1
+    return edges, nstores
+
+
+def check(ctx):
+    P = ctx.prog
+    ms = None
+    # ---------------- a: edges of Peripheral.state ------------------------------------------------
+    edges, nstores = extract_state_edges(ctx, P)
     ctx.anchor("direct stores to Peripheral.state", nstores, 7)
     raising = 0
     seen_edge_keys = {}
@@ -195,6 +201,39 @@ def check(ctx):
     check_requests(ctx, P)
     # ---------------- c: Set_Prm / Chk_Cfg layout -------------------------------------------------
     check_layout(ctx, P)
+    check_pdu_zero_fill(ctx, P)
+
+
+def check_pdu_zero_fill(ctx, P):
+    """c.set_prm / c.zero-fill: the Set_Prm builder ORs bits into octet 0 and leaves the watchdog octets alone when no watchdog is
+    configured (and the Data_Exchange builder writes nothing in Clear): every PDU builder closure relies on receiving an all-zero
+    buffer.  The function that calls the `FnOnce(&mut [u8])` builder must zero-fill exactly the slice it hands over, on every path."""
+    n = 0
+    for f in P.crate_fns(CR):
+        if f.module != "fdl::telegram" or f.kind == "promoted":
+            continue
+        sites = [(b, c) for b, c in call_sites(f) if (c.get("callee") or "").endswith("FnOnce::call_once")]
+        if not sites:
+            continue
+        tb = TermBuilder(f, P)
+        for b, c in sites:
+            arg = tb.joperand(c["args"][1]) if len(c["args"]) == 2 else None
+            sl = [x for x in subterms(arg) if isinstance(x, tuple) and x and x[0] == "call" and x[1].endswith("index_mut")] if arg else []
+            if not sl or "u8" not in show(tb.joperand(c["args"][0])) + "".join(l["ty"] for l in f.locals if "FnOnce" in l["ty"] or "u8" in l["ty"]):
+                continue
+            n += 1
+            marks = {}
+            for b2, c2 in call_sites(f):
+                if (c2.get("callee") or "").endswith("::fill") and len(c2["args"]) == 2 and strip_casts(tb.joperand(c2["args"][1])) == ("const", 0) \
+                        and tb.joperand(c2["args"][0]) == sl[0]:
+                    marks[(b2, None)] = "zf"
+            g = GuardAnalysis(f, P, marks=marks)
+            bad = [M.fmt_facts(fs) for fs in g.at(b) if 0 in g.count_of(fs, "zf")]
+            ctx.ob("c.set_prm", "pdu-zero-filled|%s" % f.name, bool(marks) and not bad,
+                   "the PDU builder closure is handed a buffer region that was not zero-filled (%s): builders that OR flags into an octet or "
+                   "skip optional octets (Set_Prm status / watchdog octets, Data_Exchange in Clear) transmit stale bytes of the transmit buffer" % (
+                       "no fill(0) of that slice" if not marks else "; ".join(bad[:2])), f.loc(b))
+    ctx.anchor("PDU builder call sites (FnOnce(&mut [u8]) handed a sub-slice)", n, 1)
 
 
 def check_reset_address(ctx, P):
